@@ -382,3 +382,55 @@ def loops_in(sf, item):
             out.append((t.start, ct[j].start))
         k += 1
     return out
+
+
+_CLOSURE_PREV = {"(", ",", "=", "{", ";", "[", "move", "return", "else", "in"}
+
+
+def count_closures(src):
+    """(total, unannotated) closure expressions in a piece of Rust/Verus text. A closure is `|params| body` or
+    `|| body` in expression position; it counts as annotated when it carries a Verus contract
+    (`|x: T| -> (r: U) ensures ...`, rule R14). Heuristic on tokens (binary `|`/`||` and or-patterns follow an
+    operand, closures follow `(`, `,`, `=`, `{`, `;`, `=>`, `move`, `return`)."""
+    try:
+        ct = code_tokens(lex(src))
+    except LexError:
+        return (0, 0)
+    total = 0
+    unann = 0
+    i = 0
+    n = len(ct)
+    while i < n:
+        t = ct[i]
+        if t.kind == "punct" and t.text == "|":
+            prev = ct[i - 1] if i > 0 else None
+            start = prev is None or (prev.text in _CLOSURE_PREV and prev.kind in ("punct", "ident")) or \
+                (prev.kind == "punct" and prev.text == ">" and i > 1 and ct[i - 2].text == "=" and ct[i - 2].end == prev.start)
+            if start:
+                # find the `|` closing the parameter list
+                j = i + 1
+                depth = 0
+                while j < n:
+                    x = ct[j]
+                    if x.kind == "punct":
+                        if x.text in OPEN:
+                            depth += 1
+                        elif x.text in CLOSE:
+                            depth -= 1
+                            if depth < 0:
+                                break
+                        elif x.text == "|" and depth == 0:
+                            break
+                    j += 1
+                if j < n and ct[j].text == "|":
+                    total += 1
+                    ann = False
+                    if j + 3 < n and ct[j + 1].text == "-" and ct[j + 2].text == ">" and ct[j + 3].text == "(":
+                        k = match_close(ct, j + 3)
+                        ann = k + 1 < n and ct[k + 1].text in ("ensures", "requires")
+                    if not ann:
+                        unann += 1
+                    i = j + 1
+                    continue
+        i += 1
+    return (total, unann)
